@@ -262,6 +262,10 @@ func (hr *histRunner) history(hi int) *histObs {
 					*hr.timeouts++
 					nt = t + 1
 				}
+				if len(tr.entries) > maxTraceEntries {
+					g.note("skipped:long-native-trace")
+					continue
+				}
 				ci := len(ho.Calls)
 				ho.Calls = append(ho.Calls, callObs{F: si, ArgsGo: at.goText, ArgsCoq: at.coqText, Res: res, Trace: coqList(tr.entries), VL0: vl0,
 					Where: fmt.Sprintf("unit %d %s (slot %d), called after unit %d was compiled", s.unit, s.f.name, si, u)})
